@@ -63,8 +63,8 @@ CLAIM = dict(
          "several spellings, also negated.",
     note="Trusted: Lean kernel; hand models of integer_re/float_re/string_re, int(s,0), literal_eval, the two codecs and "
          "repr (tied by correspondence); IEEE rounding and \\N{} assumed. Known findings: F13 ('\\é' gives '\\xe9'); a float "
-         "literal that overflows to inf is compiled to the bare name `inf` (NameError at render unless constant-folded "
-         "into template data).",
+         "literal that overflowed to inf was compiled to the bare name `inf` (NameError; fixed in 28fea2b, non-finite "
+         "constants are still probed in set/if/for/macro-default/arithmetic positions).",
     design_ref="§5 C14",
 )
 
@@ -157,6 +157,13 @@ def dec_to_hex(m, e):
 def e2e_value(env, expr):
     try:
         return env.compile_expression(expr, undefined_to_none=False)()
+    except Exception as e:  # noqa
+        return ("error", type(e).__name__)
+
+
+def e2e_value_data(env, expr, data):
+    try:
+        return env.compile_expression(expr, undefined_to_none=False)(**data)
     except Exception as e:  # noqa
         return ("error", type(e).__name__)
 
@@ -815,6 +822,47 @@ def run_values(ctx, res, env, jinja2):
     return stats, samples, len(distinct)
 
 
+# non-finite constants (inf from an overflowing literal, -inf, nan by constant folding) in every position --------------
+
+NONFINITE_EXPRS = ["1e999", "-1e999", "1e309", "1e999 - 1e999", "1e999 * 0", "-1e999 + 1e999", "1e999 + y", "y - 1e999",
+                   "1e999 if t else 2", "(1e999 - 1e999) if t else 0", "-1e999 if t else 0", "[1e999, -1e999, 1e999 - 1e999]",
+                   "1e999 > y", "1e999 == 1e999", "(1e999 - 1e999) == (1e999 - 1e999)", "{'a': 1e999}['a'] + y",
+                   "1_0e4_00 * 2", "2E308 / 1e999"]
+NONFINITE_TEMPLATES = ["{%% set x = %s %%}{{ x }}", "{{ %s }}", "{%% if t %%}{{ %s }}{%% endif %%}",
+                       "{%% for v in [%s] %%}{{ v }}{%% endfor %%}", "{%% set x = [%s] %%}{{ x[0] }}",
+                       "{%% macro m(a=%s) %%}{{ a }}{%% endmacro %%}{{ m() }}", "{{ (%s, 1)[0] }}"]
+
+
+def run_nonfinite(ctx, res, env):
+    """the value Python assigns to the expression (eval of the same text: literals, arithmetic, comparison only) must be what
+    the compiled expression / the rendered template yields, whatever position the constant is compiled in"""
+    stats = {"expressions": 0, "templates": 0}
+    data = {"t": True, "y": 1}
+    for e in NONFINITE_EXPRS:
+        want = eval(compile(e, "<c14>", "eval"), {"__builtins__": {}}, dict(data))
+        stats["expressions"] += 1
+        try:
+            got = env.compile_expression(e, undefined_to_none=False)(**data)
+        except Exception as ex:  # noqa
+            got = ("error", type(ex).__name__)
+        if repr(got) != repr(want):
+            key = ("C14:float-literal-inf:NameError" if got == ("error", "NameError") else "C14:float-nonfinite:expression")
+            res.violate(key, f"compile_expression({e!r})() gives {got!r}; Python's value is {want!r}",
+                        {"kind": "nonfinite", "expr": e})
+        for tpl in NONFINITE_TEMPLATES:
+            src = tpl % e
+            stats["templates"] += 1
+            try:
+                out = env.from_string(src).render(**data)
+            except Exception as ex:  # noqa
+                out = ("error", type(ex).__name__)
+            if out != str(want):
+                key = ("C14:float-literal-inf:NameError" if out == ("error", "NameError") else "C14:float-nonfinite:template")
+                res.violate(key, f"{src!r} renders {out!r}; str of Python's value is {str(want)!r}",
+                            {"kind": "nonfinite", "template": src})
+    return stats
+
+
 # ---------------------------------------------------------------------------------------------------------
 
 def run(ctx, res):
@@ -826,8 +874,9 @@ def run(ctx, res):
         sstats, ssamples, sdist = run_strings(ctx, res, env, jinja2)
         ustats, udist = run_soups(ctx, res, env)
         vstats, vsamples, vdist = run_values(ctx, res, env, jinja2)
+        fstats = run_nonfinite(ctx, res, env)
     evaluations = (nstats["spellings"] + nstats["e2e"] * 2 + sstats["cases"] * 4 + ustats["cases"] + vstats["e2e"] * 2
-                   + vstats["negated"])
+                   + vstats["negated"] + fstats["expressions"] + fstats["templates"])
     res.coverage.update({
         "evaluations": evaluations,
         "distinct_nontrivial": ndist + sdist + udist + vdist,
@@ -848,6 +897,7 @@ def run(ctx, res):
         "strings": sstats,
         "escape_soups": ustats,
         "values": vstats,
+        "nonfinite_constants": fstats,
     })
 
 
@@ -867,6 +917,14 @@ def replay(ctx, case):
             return {"expr": expr, "wanted": c["value"], "tokens": repr(raw_inner(env, expr)),
                     "parse": repr(parse_const(env, jinja2, expr)), "compile_expression": repr(e2e_value(env, expr)),
                     "render": repr(e2e_render(env, expr))}
+        if c["kind"] == "nonfinite":
+            data = {"t": True, "y": 1}
+            if "expr" in c:
+                return {"expr": c["expr"], "compile_expression": repr(e2e_value_data(env, c["expr"], data))}
+            try:
+                return {"template": c["template"], "render": env.from_string(c["template"]).render(**data)}
+            except Exception as ex:  # noqa
+                return {"template": c["template"], "render": "raised " + type(ex).__name__ + ": " + str(ex)}
         body = "".join(map(chr, c["body"]))
         expr = c["quote"] + body + c["quote"]
         return {"expr": expr, "jinja": repr(parse_const(env, jinja2, expr)), "python": repr(python_body_value(body, c["quote"]))}
